@@ -176,20 +176,91 @@ def octet (cs : List Char) : Option Nat :=
   | some n => if n ≤ 255 && cs.length ≤ 3 && !(cs.length > 1 && cs.head? == some '0') then some n else none
   | none => none
 
-/-- `"a.b.c.d"` or `"a.b.c.d/n"` (`AnyIpCidr::from_str`, IPv4 part): the host part must be zero. -/
+def hexVal (c : Char) : Option Nat :=
+  if c.isDigit then some (c.toNat - '0'.toNat)
+  else if 'a' ≤ c ∧ c ≤ 'f' then some (c.toNat - 'a'.toNat + 10)
+  else if 'A' ≤ c ∧ c ≤ 'F' then some (c.toNat - 'A'.toNat + 10)
+  else none
+
+/-- one group of an IPv6 address: 1-4 hex digits -/
+def hexGroup (cs : List Char) : Option Nat :=
+  if cs.isEmpty || cs.length > 4 then none
+  else (cs.mapM hexVal).map fun ds => ds.foldl (fun n d => n * 16 + d) 0
+
+def ipv4 (cs : List Char) : Option Nat :=
+  match (splitOn '.' cs).mapM octet with
+  | some [a, b, c, d] => some (((a * 256 + b) * 256 + c) * 256 + d)
+  | _ => none
+
+/-- `:`-separated groups; the LAST one may be a dotted quad (two groups).  `none` = malformed. -/
+def v6Groups (allowV4 : Bool) (cs : List Char) : Option (List Nat) :=
+  if cs.isEmpty then some []
+  else
+    let parts := splitOn ':' cs
+    let front := parts.dropLast
+    match parts.getLast? with
+    | none => some []
+    | some last =>
+      match front.mapM hexGroup with
+      | none => none
+      | some fs =>
+        match hexGroup last with
+        | some g => some (fs ++ [g])
+        | none =>
+          if allowV4 then (ipv4 last).map fun v => fs ++ [v / 65536, v % 65536] else none
+
+/-- first occurrence of `::` : (before, after) -/
+def splitDoubleColon : List Char → Option (List Char × List Char)
+  | [] => none
+  | [_] => none
+  | a :: b :: rest =>
+    if a == ':' && b == ':' then some ([], rest)
+    else (splitDoubleColon (b :: rest)).map fun p => (a :: p.1, p.2)
+
+/-- `Ipv6Addr::from_str`: eight 16-bit groups, `::` standing for at least one zero group, an embedded IPv4 tail. -/
+def ipv6 (cs : List Char) : Option Nat :=
+  let value (gs : List Nat) : Nat := gs.foldl (fun n g => n * 65536 + g) 0
+  match splitDoubleColon cs with
+  | none =>
+    match v6Groups true cs with
+    | some gs => if gs.length == 8 then some (value gs) else none
+    | none => none
+  | some (head, tail) =>
+    match v6Groups false head, v6Groups true tail with
+    | some hs, some ts =>
+      if hs.length + ts.length ≤ 7 then some (value (hs ++ List.replicate (8 - hs.length - ts.length) 0 ++ ts))
+      else none
+    | _, _ => none
+
+/-- `u8::from_str` (the prefix length): an optional `+`, then digits (leading zeros allowed), ≤ 255. -/
+def u8 (cs : List Char) : Option Nat :=
+  let ds := match cs with | '+' :: r => r | r => r
+  match digitsToNat ds with
+  | some n => if n ≤ 255 then some n else none
+  | none => none
+
+/-- `AnyIpCidr::from_str` for addresses and networks of both families (NOT the literal `any`, see `cidrInScope`):
+`addr` = a host network (/32, /128), `addr/len` with `len` ≤ the family width and a zero host part. -/
 def cidr (s : String) : Option Cidr :=
+  let mk (v6 : Bool) (v : Nat) (len : Option Nat) : Option Cidr :=
+    let w := if v6 then 128 else 32
+    match len with
+    | none => some ⟨v6, v, w⟩
+    | some n => if n ≤ w && v % 2 ^ (w - n) == 0 then some ⟨v6, v, n⟩ else none
+  let addr (cs : List Char) : Option (Bool × Nat) :=
+    match ipv4 cs with
+    | some v => some (false, v)
+    | none => (ipv6 cs).map fun v => (true, v)
   match splitOn '/' s.toList with
-  | [addr] =>
-    match (splitOn '.' addr).mapM octet with
-    | some [a, b, c, d] => some ⟨false, ((a * 256 + b) * 256 + c) * 256 + d, 32⟩
-    | _ => none
-  | [addr, len] =>
-    match (splitOn '.' addr).mapM octet, digitsToNat len with
-    | some [a, b, c, d], some n =>
-      let v := ((a * 256 + b) * 256 + c) * 256 + d
-      if n ≤ 32 && len.length ≤ 2 && v % 2 ^ (32 - n) == 0 then some ⟨false, v, n⟩ else none
+  | [a] => (addr a).bind fun p => mk p.1 p.2 none
+  | [a, len] =>
+    match addr a, u8 len with
+    | some p, some n => mk p.1 p.2 (some n)
     | _, _ => none
   | _ => none
+
+/-- The stand-in does not represent `AnyIpCidr::Any` (the literal `any`): such a range is outside its scope. -/
+def cidrInScope (s : String) : Bool := s != "any"
 
 def isLeap (y : Nat) : Bool := (y % 4 == 0 && y % 100 != 0) || y % 400 == 0
 
@@ -209,7 +280,9 @@ def hms (cs : List Char) : Option Nat :=
   match splitOn ':' cs with
   | [h, m, s] =>
     match fixed 2 h, fixed 2 m, fixed 2 s with
-    | some h, some m, some s => if h < 24 && m < 60 && s < 60 then some (h * 3600 + m * 60 + s) else none
+    | some h, some m, some s =>
+      -- second 60 is a leap second: chrono keeps it as second 59 (+ a nanosecond part)
+      if h < 24 && m < 60 && s ≤ 60 then some (h * 3600 + m * 60 + min s 59) else none
     | _, _, _ => none
   | _ => none
 
@@ -254,6 +327,25 @@ def dateTime (s : String) : Option Nat :=
               | [] => none
         | _, _, _, _ => none
       | _ => none
+
+def hasDigit (s : String) : Bool := s.toList.any Char.isDigit
+
+def shape (pat : List Char) (cs : List Char) : Bool :=
+  pat.length == cs.length && (pat.zip cs).all fun (p, c) => if p == 'd' then c.isDigit else p == c
+
+/-- Scope of the `NaiveTime` stand-in: exactly `dd:dd:dd`, or a text without any digit (always rejected).  chrono also
+accepts single digits, optional seconds, fractions and white space between the parts: outside the stand-in. -/
+def timeInScope (s : String) : Bool := shape "dd:dd:dd".toList s.toList || !hasDigit s
+
+/-- Scope of the `DateTime<Utc>` stand-in: `dddd-dd-ddTdd:dd:dd` + `Z` or `±dd:dd`, or a text without any digit.
+chrono also accepts a space / lower-case separator, white space, fractions, `+hhmm`, a signed year: outside. -/
+def dateTimeInScope (s : String) : Bool :=
+  let cs := s.toList
+  let year := (digitsToNat (cs.take 4)).getD 0
+  let plus := shape "dddd-dd-ddTdd:dd:dd+dd:dd".toList cs
+  -- instants before the epoch (negative timestamps) are outside the stand-in (`Nat` seconds)
+  ((shape "dddd-dd-ddTdd:dd:ddZ".toList cs || plus || shape "dddd-dd-ddTdd:dd:dd-dd:dd".toList cs) &&
+      (year ≥ 1971 || (year == 1970 && !plus))) || !hasDigit s
 
 /-- English week-day names, short or long, any case (`Weekday::from_str`). -/
 def weekday (s : String) : Option Nat :=
